@@ -36,6 +36,7 @@ def cases(tier, seed):
     kinds = ['mix', 'sizes', 'unknown', 'gss', 'ssh1', 'broken', 'terrapin', 'clean', 'mix', 'sizes', 'mix', 'mix']
     n = 8 if tier == 'quick' else 144
     cs = [{'kind': kinds[i % len(kinds)], 'seed': rng.randrange(1 << 30)} for i in range(n)]
+    cs += [{'kind': 'warnonly', 'seed': rng.randrange(1 << 30)} for _ in range(1 if tier == 'quick' else 12)]   # the worst finding is a warning: the status must not move with -l
     for c in cs:
         if c['kind'] == 'terrapin':
             c['marker'] = True   # the quick tier's single Terrapin peer carries the marker (advisory text lists the algorithms); thorough has both variants via the seed
@@ -66,6 +67,8 @@ def build_script(c):
         # several instantiations of the same wildcard family (one per GSS mechanism), as real GSS servers advertise
         for fam in ('gss-group1-sha1-*', 'gss-gex-sha1-*', 'gss-group14-sha256-*'):
             k['kex'] += [audit.gss_instance(rng, fam) for _ in range(3)]
+    if kind == 'warnonly':
+        k = audit.sym_kex(['sntrup761x25519-sha512@openssh.com', 'curve25519-sha256', 'kex-strict-s-v00@openssh.com'], ['ssh-ed25519'], ['aes256-gcm@openssh.com', 'aes128-ctr'], rng.sample(['hmac-sha2-256', 'hmac-sha2-512-etm@openssh.com', 'hmac-sha2-512'], 2))
     if kind == 'clean':
         # names without any failure or warning - each listed twice, so that whatever a rendering remembers from the first occurrence meets the second
         k = audit.sym_kex(['sntrup761x25519-sha512@openssh.com', 'kex-strict-s-v00@openssh.com', 'sntrup761x25519-sha512@openssh.com'], ['ssh-ed25519', 'ssh-ed25519'], ['aes256-gcm@openssh.com', 'aes128-gcm@openssh.com', 'aes256-gcm@openssh.com'],
